@@ -45,6 +45,8 @@ def flt_src(kind, flt):
     def rec(x):
         if x["k"] in ("eq", "ne"):
             return "%s %s '%s'" % (acc % x["f"], "==" if x["k"] == "eq" else "!=", x["c"])
+        if x["k"] == "heq":
+            return "%s == '%s'" % (x["f"], x["c"])          # a variable of the type header, whatever the kind
         if x["k"] == "nz":
             return "int(%s)" % (acc % x["f"])
         if x["k"] == "and":
@@ -84,7 +86,16 @@ def gen_scenario(r, sid):
             kw = {"dec": "d%d" % (d + 1)}
             if r.random() < 0.2:
                 kw["extra"] = "x"
-            trigs.append({"fid": "f%d" % f, "tag": "d%d" % (d + 1), "kind": kind, "key": key, "flt": r.choice(FILTERS), "kw": kw})
+            flt = r.choice(FILTERS)
+            hr = random.Random(r.random())
+            if hr.random() < 0.3:
+                # the filter also reads the type header: trigger_type and the kind's own key variable
+                hv = {"event": "event_type", "mqtt": "topic", "webhook": "webhook_id"}[kind]
+                hc = hr.choice([key, key, MSG_KEYS.get(kind, KEYS[kind])[0]])
+                hf = hr.choice([{"k": "heq", "f": "trigger_type", "c": kind}, {"k": "heq", "f": hv, "c": hc},
+                                {"k": "heq", "f": "trigger_type", "c": "state"}])
+                flt = hf if flt["k"] == "none" else {"k": "and", "l": hf, "r": flt}
+            trigs.append({"fid": "f%d" % f, "tag": "d%d" % (d + 1), "kind": kind, "key": key, "flt": flt, "kw": kw})
     # an extra parameter of the function's event.fire(), named like an option of some other call
     xps = {"f%d" % f: r.choice(XPS) for f in range(nfun)}
     for t in trigs:
